@@ -27,6 +27,9 @@ Coargument, Matrix) and every node is compared with its prediction:
        Whatever holds a FormSum after expansion additionally goes through the passes that map over
        integrands / components (apply_algebra_lowering, map_integrands, replace) and must keep its
        arguments and its tensor.
+  (iv) the number zero (leaves "num": Python 0, 0.0, ufl Zero()) as one operand of + and -: B + 0,
+       0 + B, B - 0 denote B and 0 - B denotes -B (sum([A, B]), r = 0; r -= B); the second notation
+       of a program also writes the action as A * f / A @ f / A(B) and + - on a number in place.
 """
 
 from __future__ import annotations
@@ -71,7 +74,9 @@ JAVA_OPTS_SHORT = JAVA_BASE + " -Xmn128m -XX:TieredStopAtLevel=1 -XX:CICompilerC
 JAVA_OPTS_LONG = JAVA_BASE + " -Xmn256m -XX:CICompilerCount=2"
 JAVA_OPTS = JAVA_OPTS_SHORT
 
-ALL_LEAVES = set(range(1, 29))
+NUM_LEAVES = {29, 30, 31}  # the number zero as an operand of + and -: 0, 0.0, ufl Zero()
+BF_LEAVES = set(range(1, 29))
+ALL_LEAVES = BF_LEAVES | NUM_LEAVES
 # a sub-alphabet: f, g, c, d; matrices (V,V) (V,W) (V,V*) (W,V*); forms a_VV af_VV L_V Lf_V Lq_V J_q;
 # Coargument(V*,1); Argument(V,1)
 SMALL_LEAVES = {1, 3, 4, 6, 7, 8, 10, 12, 13, 16, 17, 19, 21, 22, 24, 26}
@@ -632,6 +637,19 @@ def apply_op(E, op, objs, variant):
     raise MachineryError(f"unknown opcode {code}")
 
 
+def num_mode(E, op):
+    """'0+B', 'B+0', '0-B', 'B-0' for an addition / subtraction with a number-zero leaf as operand, else None."""
+    code, a, b = op[:3]
+    if code not in (1, 2):
+        return None
+    nl = len(E.leaves)
+    na, nb = (i <= nl and E.leaves[i - 1][0] == "num" for i in (a, b))
+    if na == nb:
+        return None
+    s = "+" if code == 1 else "-"
+    return f"0{s}B" if na else f"B{s}0"
+
+
 def op_sig(op, desc):
     code, a, b, w, q, dr, z = op[:7]
     name = OPNAME[code]
@@ -872,6 +890,9 @@ def replay_program(E, asm, line, variant, status, counters, corrupt=None, only=N
             try:
                 checks += check_node(E, asm, pred, o, has_der, counters, corrupt if k == len(ops) - 1 else None)
                 status[key] = "ok"
+                mode = num_mode(E, op)
+                if mode:
+                    counters["number_zero_operand:" + mode] = counters.get("number_zero_operand:" + mode, 0) + 1
             except Skip:
                 status[key] = "skip"
                 counters["refused_arityless_operand"] = counters.get("refused_arityless_operand", 0) + 1
@@ -1076,9 +1097,11 @@ def run(ctx, args):
         "a program = a construction history over the declared leaves (3 coefficients, 3 cofunctions, 6 matrices incl. "
         "dual column spaces, 11 variational forms of arity 0-2 that are constant/linear/quadratic in a coefficient, 2 "
         "coarguments, 3 arguments) with operations add, sub, neg, scale by {0,1,-1,2,1/2}, action, adjoint, ZeroBaseForm, "
-        "derivative (w.r.t. a coefficient or a cofunction, new argument or coefficient direction); TLC enumerates every "
+        "derivative (w.r.t. a coefficient or a cofunction, new argument or coefficient direction); the number zero (0, 0.0, "
+        "ufl Zero(): 3 more leaves) may be one operand of add / sub (B + 0, 0 + B, B - 0, 0 - B; each required); TLC enumerates every "
         "program without dead code up to the exhaustive depth and samples deeper ones with -simulate (seeded); every "
-        "operation of every program is replayed on real ufl (operator notation and FormSum constructor / explicit direction) "
+        "operation of every program is replayed on real ufl (ufl.action + operator notation, and a second notation: FormSum "
+        "constructor / explicit direction / A * f, A @ f, A(B) for the action / in-place += -= on a number) "
         "and compared with the prediction: arguments, coefficients, assembled tensor before and after expand_derivatives; "
         "weighted sums: the operation wsum = w1*x + w2*y + w3*z (three different nodes, pairwise different weights out of "
         "{3,-2,1/2}, {5,-3/2,-4}, {1,3,-2}, {1/2,-4,5}) and replace(A, {f: f2} / {c: c2}); the runs 'sums-*' enumerate (or "
@@ -1099,6 +1122,7 @@ def run(ctx, args):
     ctx.assume("the derivative of a base form that is not a Form is used further only after expand_derivatives (as in ufl's tests); what it reports before expansion is compared as returned")
     ctx.assume("derivative with a coefficient direction is not applied to Actions; derivative of an Action object whose left operand holds a variational form next to other base forms is excluded (the Leibniz rule goes through compute_form_action)")
     ctx.assume("replace is applied to base forms that contain the replaced coefficient / cofunction, by one of the same space and kind; passes that map over integrands and components (expand_derivatives, apply_algebra_lowering, map_integrands, replace) denote the identity on the multilinear map")
+    ctx.assume("the numbers a base form may be added to / subtracted from are 0, 0.0 and the scalar ufl Zero() (form.py: 'Allow adding 0 or 0.0 as a no-op, needed for sum([a,b])'); they denote the zero map of the arity of the other operand")
     ctx.assume("predictions with an entry outside the exact range of CQ.tla (|n|, d <= 20000) are not compared (counted as undefined_skipped)")
     t0 = time.time()
     seed = ctx.seed
@@ -1106,9 +1130,12 @@ def run(ctx, args):
     JAVA_OPTS = JAVA_OPTS_SHORT if quick else JAVA_OPTS_LONG
     if quick:
         jobs = [
-            Job("laws-depth1-10leaves", 1, leaves={1, 4, 7, 10, 13, 17, 19, 22, 24, 26}, weights=(1, 4), zeros=(2,), dercoefs=(1,), dump=False, invs=LAW_INVS),
+            Job("laws-depth1-10leaves", 1, leaves={1, 4, 7, 10, 13, 17, 19, 22, 24, 26, 29}, weights=(1, 4), zeros=(2,), dercoefs=(1,), dump=False, invs=LAW_INVS),
             Job("enum-depth2-12leaves", 2, leaves=QUICK_LEAVES, weights=(1, 4), zeros=(2,), dercoefs=(1, 4)),
+            # every leaf with every number zero (0, 0.0, Zero()) on either side of + and -
             Job("enum-depth1-all", 1, sums=(1,), repls=ALL_REPLS, workers=1),
+            # f, c, M(V,V), Lf_V and the number 0: 0 - action(M, f), sum([c, Lf_V]) = (0 + c) + Lf_V, derivative(0 - c, c), ...
+            Job("enum-depth2-numbers", 2, leaves={1, 4, 7, 19, 29}, weights=(1, 4), zeros=(2,), dercoefs=(1, 4), workers=1),
             Job("sim-depth4", 4, simulate=18, seed=seed, sums=(3,), repls=ALL_REPLS),
             # weighted sums of three components: f, f2, c, c2, Lf_V and every Action of two of them; then one of
             # derivative / action / replace (all orders of the components: every vanishing pattern)
@@ -1171,6 +1198,9 @@ def run(ctx, args):
             raise MachineryError(f"no derivative of a weighted sum with the vanishing pattern {pat} was replayed")
     if not ctx.cov.get("identity_passes_over_sums"):
         raise MachineryError("no weighted sum went through the identity passes")
+    for mode in ("0+B", "B+0", "0-B", "B-0"):
+        if not ctx.cov.get("number_zero_operand:" + mode):
+            raise MachineryError(f"no {mode} with a number zero was replayed")
     ctx.cov["exhaustive"] = False  # exhaustive up to depth 2 (depth 3 on a sub-alphabet), sampled beyond
     ctx.sample({"leaves": table["leaves"][:6], "note": "dump line = [ops [[opcode,a,b,w,q,dir,z]..], predictions per op [kind,args,may,must,undefined,tensor]]"})
 
@@ -1201,9 +1231,9 @@ def replay(ctx, doc):
 
 
 def selftest(ctx):
-    ctx.rule = "selftest: corrupted predictions (tensor entry, argument number, space, dual flag; also of a weighted sum and of the derivative of one), a corrupted assembler, weighted sums built or expanded with wrongly paired weights and a mutated contraction in the specification must all be rejected"
+    ctx.rule = "selftest: corrupted predictions (tensor entry, argument number, space, dual flag; also of a weighted sum, of the derivative of one and of 0 - B), a corrupted assembler, weighted sums built or expanded with wrongly paired weights, a reflected subtraction that negates the wrong operand and a mutated contraction in the specification must all be rejected"
     jobs = [
-        Job("selftest-enum", 1, leaves=SMALL_LEAVES, sums=(1,), repls=ALL_REPLS),
+        Job("selftest-enum", 1, leaves=SMALL_LEAVES | {29}, sums=(1,), repls=ALL_REPLS),
         # contraction with the FIRST slot of the left operand instead of the last: the laws must fail
         Job("selftest-mutant-laws", 1, leaves=SMALL_LEAVES, dump=False, invs=LAW_INVS, mutate=("ta[Append(SubSeq(s, 1, p), k)]", "ta[<<k>> \\o SubSeq(s, 1, p)]")),
         # weighted sums of c, c2, Lf_V in every order, then a derivative
@@ -1228,6 +1258,7 @@ def selftest(ctx):
     adj = pick(lambda l: l[0][0][0] == 6 and l[1][0][1][0][1] != l[1][0][1][1][1])
     two = pick(lambda l: l[0][0][0] == 5 and len(l[1][0][1]) == 2)
     wsm = pick(lambda l: l[0][0][0] == 9 and any(_q(x) for x in l[1][0][5]))
+    rsb = pick(lambda l: num_mode(E, l[0][0]) == "0-B" and any(_q(x) for x in l[1][0][5]))
 
     def with_corruption(line, fn):
         return replay_program(E, _ASM, line, "ops", {}, {}, corrupt=fn)[1]
@@ -1263,6 +1294,7 @@ def selftest(ctx):
         ("predicted-adjoint-not-swapped", adj, transpose),
         ("predicted-tensor-entry-2form", two, bump_t),
         ("predicted-tensor-entry-weighted-sum", wsm, bump_t),
+        ("predicted-tensor-entry-zero-minus-B", rsb, bump_t),
     ]:
         f = with_corruption(line, fn)
         rejected[name] = [f[1]] if f else []
@@ -1295,6 +1327,16 @@ def selftest(ctx):
     finally:
         E.sumweight = orig_sw
     rejected["mutant-sum-weights-rotated"] = [f"{nbad3} lines rejected"] if nbad3 else []
+    # a reflected subtraction that negates the wrong operand (0 - B evaluated as B - 0) must be noticed
+    from ufl.form import BaseForm
+
+    orig_rsub = BaseForm.__rsub__
+    BaseForm.__rsub__ = lambda self, other: self + (-other)
+    try:
+        nbad5 = sum(bool(replay_program(E, _ASM, l, "ops", {}, {})[1]) for l in lines if num_mode(E, l[0][0]) == "0-B")
+    finally:
+        BaseForm.__rsub__ = orig_rsub
+    rejected["mutant-reflected-subtraction"] = [f"{nbad5} lines rejected"] if nbad5 else []
     # derivatives of weighted sums in which a component vanishes before one that does not
     tlc.require_ok(done["selftest-sums"].res, "selftest sums")
     stable, slines = split_prints(done["selftest-sums"])
